@@ -26,6 +26,9 @@ type c08Lane struct {
 	After     string `json:"after"`     // none | resume | clean | terminate  (action after the connection ended)
 	AfterMs   int    `json:"after_ms"`  // when, relative to the end of the connection
 	Subscribe bool   `json:"subscribe"` // the client also had a subscription (irrelevant, exercises session state)
+	// DiscExpiryS > 0 (ending disc4, session expiry non-zero at CONNECT): the DISCONNECT carries this new Session
+	// Expiry Interval; "session end or delay, whichever comes first" is then decided by the NEW interval
+	DiscExpiryS int `json:"disconnect_expiry_s,omitempty"`
 }
 
 type c08Scen struct {
@@ -54,6 +57,9 @@ func genC08(t *rapid.T) c08Scen {
 			ends = append(ends, "disc4", "disc4")
 		}
 		l.Ending = rapid.SampledFrom(ends).Draw(t, "ending")
+		if l.Ending == "disc4" && l.ExpiryS != 0 && rapid.Bool().Draw(t, "disc_expiry") {
+			l.DiscExpiryS = rapid.SampledFrom([]int{1, 3, 100}).Draw(t, "disc_expiry_s")
+		}
 		switch l.Ending {
 		case "takeover_clean", "takeover_resume", "terminate":
 			l.After = "none"
@@ -171,7 +177,12 @@ func runC08(s c08Scen, c *ev.Case) *ev.Violation {
 			cl.Kill()
 			suppress = true
 		case "disc4":
-			_ = cl.Send(&mw.Packet{Type: mw.DISCONNECT, ReasonCode: 0x04})
+			dp := &mw.Packet{Type: mw.DISCONNECT, ReasonCode: 0x04}
+			if l.DiscExpiryS > 0 {
+				dp.Props = &mw.Props{SessionExpiry: u32p(uint32(l.DiscExpiryS))}
+				o.labels = append(o.labels, "disconnect_changes_session_expiry")
+			}
+			_ = cl.Send(dp)
 			cl.Kill()
 		case "close":
 			cl.Kill()
@@ -222,6 +233,9 @@ func runC08(s c08Scen, c *ev.Case) *ev.Violation {
 			D = time.Duration(l.DelayS) * time.Second
 		}
 		E := time.Duration(l.ExpiryS) * time.Second
+		if l.DiscExpiryS > 0 {
+			E = time.Duration(l.DiscExpiryS) * time.Second
+		}
 		// ---- later action ----
 		var reattach *ival
 		switch l.After {
